@@ -22,7 +22,7 @@ VERIF_DIR = os.path.dirname(os.path.dirname(os.path.abspath(__file__)))
 # evidence of the real tree)
 REPLAY_DIR = os.environ.get("XSIM_REPLAY_DIR") or os.path.join(VERIF_DIR, "replays")
 EVIDENCE_DIR = os.environ.get("XSIM_EVIDENCE_DIR") or os.path.join(VERIF_DIR, "evidence")
-KNOWN_FILE = os.path.join(VERIF_DIR, "known_findings.json")
+KNOWN_FILE = os.environ.get("XSIM_KNOWN_FILE") or os.path.join(VERIF_DIR, "known_findings.json")
 
 EXIT_OK, EXIT_VIOLATION, EXIT_HARNESS = 0, 1, 2
 
